@@ -12,8 +12,16 @@ Oracle (independent of the library): the idempotent decomposition
     formula; ``log1p`` is proven consistent with the library's own ``log`` of 1 + zeta (log1p(w) = log(1+w),
     log(sqrt(s)) = log(s)/2, regulariser TINY set to 0)                                                      (z3 UF+NRA)
  Z  reduction to the complex function on z2 = 0 (with f(0) values of the axioms)
-Outside: log itself, sqrt, non-integer powers, division, the tan family and all inverse functions (branch cuts, arctan,
-clip and the +TINY perturbation make every identity approximate).
+ P  principal region (a neighbourhood of the positive real axis: Re z1 in [1e-6, 1000], the three other components at most
+    Re z1 / 4 in absolute value; for divisors also the mirrored region, which the library maps back by negation):
+    log, log2, log10, exp2, sqrt, ** with a real non-integer exponent, ** -1, Bicomplex / Bicomplex, scalar / Bicomplex are
+    proven equal to the decomposition oracle on every path of the real code (both branches of the non-invertibility test)
+    from the identities of the principal branch listed in ``assumptions`` (TINY set to 0); uninterpreted applications in the
+    trace are canonicalised by solver-proven argument equalities (the clip and the complex division of _arg_c are part of
+    those queries); tan cot sec csc tanh coth sech csch are proven to be, term for term, the library's own quotient of the
+    functions proven in T, so their correctness follows from the division obligations for denominators in that region.
+Outside: the inverse functions (arcsin ... arctanh), bicomplex exponents, logaddexp, everything outside the principal region
+(branch cuts), the +TINY perturbation, floating-point accuracy.
 """
 from __future__ import annotations
 
@@ -39,19 +47,27 @@ META = {
         'with the library log of 1+zeta. A formula that is not a consequence of the axioms yields sat and is replayed '
         'numerically against numpy complex functions.'),
     'functions_encoded': ['numdifftools.multicomplex.Bicomplex.__init__/__add__/__radd__/__sub__/__rsub__/__mul__/__rmul__/__neg__/'
-                          'conjugate/dot/_pow_singular/exp/sin/cos/sinh/cosh/expm1/log1p/log/mod_c/arg_c/arg_c1p/_arg_c/_coerce'],
-    'bounds': 'scalar (0-d) operands and shape (2,) operands for the ring operations; integer exponents -3..5',
+                          'conjugate/dot/_pow_singular/exp/sin/cos/sinh/cosh/expm1/log1p/log/mod_c/arg_c/arg_c1p/_arg_c/_coerce/'
+                          '__pow__/_pow/__truediv__/__rtruediv__/__getitem__/__setitem__/log2/log10/exp2/sqrt/tan/cot/sec/csc/tanh/coth/sech/csch'],
+    'bounds': 'scalar (0-d) operands and shape (2,) operands for the ring operations; integer exponents -3..5; principal region: '
+              'Re z1 in [1e-6, 1000], |Im z1|, |Re z2|, |Im z2| <= Re z1 / 4 (and its mirror image for divisors); real exponents 0.5, 1.5, '
+              '-0.5, 2.5, 0.25',
     'outside_claim': ['floating-point precision of integer powers / division at negative points: exercised only by 12 concrete '
                       'witness runs (job concrete-witness-negative-base), which are NOT solver evidence',
-                      'log in general (branch of arctan / sign logic; only the exp(log) round trip on the slice z2=0 is proven), sqrt, ** with non-integer exponent, / (implemented through log), '
-                      'tan cot sec csc tanh coth sech csch, all inverse functions, log2 log10 exp2, logaddexp',
+                      'log, sqrt, real powers and division outside the principal region (branch cuts; on the slice z2=0 the exp(log) round '
+                      'trip is proven for either sign of Re z1); the tan family for denominators outside that region; all inverse functions '
+                      '(arcsin ... arctanh); bicomplex exponents; logaddexp, logaddexp2',
                       'floating-point accuracy of the component formulas'],
     'stubs': ['module global np -> symbolic numpy proxy', 'complex exp/sin/cos/sinh/cosh/expm1/log/log1p/sqrt -> pairs of '
-              'uninterpreted real functions of (re, im)', '_TINY -> 0 in the log1p-vs-log obligation'],
+              'uninterpreted real functions of (re, im); w**p with a fixed real p -> one uninterpreted function per exponent',
+              '_TINY -> 0 in the log1p-vs-log and principal-region obligations'],
     'assumptions': ['exp(z1 +- i z2) = exp(z1)(cos z2 +- i sin z2)', 'sin(z1 +- i z2) = sin z1 cosh z2 +- i cos z1 sinh z2',
                     'cos(z1 +- i z2) = cos z1 cosh z2 -+ i sin z1 sinh z2', 'sinh(z1 +- i z2) = sinh z1 cos z2 +- i cosh z1 sin z2',
                     'cosh(z1 +- i z2) = cosh z1 cos z2 +- i sinh z1 sin z2', 'expm1(w) = exp(w) - 1', 'cos(w) - 1 = -2 sin(w/2)^2',
-                    'log1p(w) = log(1 + w)', 'log(sqrt(s)) = log(s)/2', 'f(0): exp 1, cos 1, cosh 1, sin 0, sinh 0, expm1 0'],
+                    'log1p(w) = log(1 + w)', 'log(sqrt(s)) = log(s)/2', 'f(0): exp 1, cos 1, cosh 1, sin 0, sinh 0, expm1 0',
+                    'principal region only: log(sqrt(u v)) = (log u + log v)/2 and arctan(z2/z1) = (log v - log u)/(2i) for u = z1 - i z2, '
+                    'v = z1 + i z2; exp(A -+ iB) = exp(A)(cos B -+ i sin B); definitions w^p := exp(p log w), 1/w := exp(-log w), '
+                    'log2 := log/ln 2, log10 := log/ln 10, exp2(w) := exp(w ln 2)', 'denominators |u|^2, |v|^2 of exact reciprocals are non-zero'],
     'timeout_ms': {'quick': 120000, 'thorough': 300000},
 }
 
@@ -69,6 +85,11 @@ def jobs(tier, seed):
         out.append(('slice-%s' % fn, dict(kind='slice', name=fn, k=0)))
     out.append(('log1p-vs-log', dict(kind='log1p', name='log1p', k=0)))
     out.append(('log-exp-roundtrip-on-slice', dict(kind='logslice', name='log', k=0)))
+    # the log family in the principal region (a neighbourhood of the positive real axis): Re z1 > 0, other components <= Re z1 / 4
+    for fn in ('log', 'log2', 'log10', 'exp2', 'sqrt', 'reciprocal', 'division', 'division-negative', 'rdivision') + PRINCIPAL_TRIG:
+        out.append(('principal-%s' % fn, dict(kind='principal', name=fn, k=0)))
+    for i in range(len(RPOWS)):
+        out.append(('principal-rpow-%s' % RPOWS[i], dict(kind='principal', name='rpow', k=i)))
     out.append(('ring-array', dict(kind='ring_array', name='mul', k=0)))
     out.append(('concrete-witness-negative-base', dict(kind='witness', name='pow', k=0)))
     return out
@@ -144,6 +165,8 @@ def run_job(job, kind, name, k):
         return log_slice(job, mc)
     if kind == 'witness':
         return witness(job)
+    if kind == 'principal':
+        return principal(job, mc, name, k)
     return log1p(job, mc)
 
 
@@ -413,6 +436,319 @@ def log1p(job, mc):
     _validate(job, mc, 'log1p')
 
 
+
+# --------------------------------------------------------------------------
+# log family in the principal region
+# --------------------------------------------------------------------------
+RPOWS = [1.5, -0.5, 2.5, 0.25]
+PRINCIPAL_TRIG = ('tan', 'cot', 'sec', 'csc', 'tanh', 'coth', 'sech', 'csch')
+_REGION_NOTE = 'Re z1 in [1e-6, 1000], |Im z1|, |Re z2|, |Im z2| <= Re z1 / 4'
+
+
+def _region(z1, z2):
+    a = z1.r
+    q = z3.RealVal('1/4')
+    return [a >= z3.RealVal('1/1000000'), a <= 1000] + [z3.And(w <= a * q, w >= -a * q) for w in (z1.i, z2.r, z2.i)]
+
+
+def _cdiv(n, d):
+    den = d.r * d.r + d.i * d.i
+    return C((n.r * d.r + n.i * d.i) / den, (n.i * d.r - n.r * d.i) / den)
+
+
+def _ratnorm(t):
+    """(numerator, denominator) polynomial pair of a z3 real term built from + - * / over variables and uninterpreted
+    applications (opaque atoms); None when the term contains anything else (ite, ...)"""
+    if z3.is_rational_value(t) or z3.is_algebraic_value(t):
+        return sn.SymQ(t)
+    if not z3.is_app(t):
+        return None
+    k = t.decl().kind()
+    kids = t.children()
+    if k in (z3.Z3_OP_ADD, z3.Z3_OP_MUL, z3.Z3_OP_SUB, z3.Z3_OP_DIV, z3.Z3_OP_UMINUS):
+        qs = [_ratnorm(c) for c in kids]
+        if any(q is None for q in qs):
+            return None
+        if k == z3.Z3_OP_UMINUS:
+            return -qs[0]
+        acc = qs[0]
+        for q in qs[1:]:
+            acc = acc + q if k == z3.Z3_OP_ADD else acc * q if k == z3.Z3_OP_MUL else acc - q if k == z3.Z3_OP_SUB else acc / q
+        return acc
+    if k == z3.Z3_OP_UNINTERPRETED:
+        return sn.SymQ(t)
+    if k == z3.Z3_OP_TO_REAL:
+        return _ratnorm(kids[0])
+    return None
+
+
+def _identically_zero(t):
+    """True when t is 0 as a rational function of its atoms (decided by normalisation; denominators are assumed non-zero)"""
+    try:
+        q = _ratnorm(t)
+    except sn.Unsupported:
+        return False
+    if q is None:
+        return False
+    n = z3.simplify(q.n, som=True)
+    return z3.is_rational_value(n) and n.as_fraction() == 0
+
+
+class Canon:
+    """Semantic, oriented rewriting of uninterpreted applications.  ``rules[fname]`` is a list of (argument as C,
+    replacement as C): an application f(X, Y) met in a term (innermost first) is replaced by the replacement when the SOLVER
+    proves  pre => (X, Y) == argument  (one query per application and candidate, counted as obligations of the job)."""
+
+    def __init__(self, job, pre, info):
+        self.job, self.pre, self.info = job, list(pre), info
+        self.rules = {}
+        self.memo = {}
+        self.eqmemo = {}
+        self.unmatched = []
+
+    def rule(self, fname, arg, repl):
+        self.rules.setdefault(fname, []).append((arg, repl))
+
+    def _equal(self, X, Y, arg):
+        key = (X.get_id(), Y.get_id(), arg.r.get_id(), arg.i.get_id())
+        if key not in self.eqmemo:
+            self.eqmemo[key] = self._equal_uncached(X, Y, arg)
+        return self.eqmemo[key]
+
+    def _equal_uncached(self, X, Y, arg):
+        dx = z3.simplify(X - arg.r, som=True)
+        dy = z3.simplify(Y - arg.i, som=True)
+        if z3.is_rational_value(dx) and z3.is_rational_value(dy):
+            return dx.as_fraction() == 0 and dy.as_fraction() == 0
+        s = z3.Solver()
+        s.set('timeout', 240000)
+        s.add(*self.pre)
+        s.add(z3.Not(z3.And(X == arg.r, Y == arg.i)))
+        t0 = __import__('time').time()
+        r = str(s.check())
+        self.job.queries += 1
+        self.job.solver_s += __import__('time').time() - t0
+        if r == 'unknown':
+            # undecided is not "different": the obligation is inconclusive (exit 2), never a silent mismatch
+            self.job.n_obl += 1
+            self.job.n_inconclusive += 1
+            self.job.errors.append('inconclusive argument match (%s): %s' % (r, str(arg.r)[:80]))
+        return r == 'unsat'
+
+    def term(self, t):
+        key = t.get_id()
+        if key in self.memo:
+            return self.memo[key]
+        if not z3.is_app(t) or t.num_args() == 0:
+            self.memo[key] = t
+            return t
+        kids = [self.term(ch) for ch in t.children()]
+        nm = t.decl().name()
+        out = None
+        if nm.startswith('uf_c') and (nm.endswith('_re') or nm.endswith('_im')) and len(kids) == 2:
+            fname = nm[4:-3]
+            for arg, repl in self.rules.get(fname, []):
+                if self._equal(kids[0], kids[1], arg):
+                    out = repl.r if nm.endswith('_re') else repl.i
+                    self._hits = getattr(self, '_hits', {})
+                    self._hits[fname] = self._hits.get(fname, 0) + 1
+                    self.job.n_obl += 1
+                    self.job.n_discharged += 1
+                    self.job.n_nontrivial += 1
+                    break
+            if out is None:
+                self.unmatched.append(nm)
+        if out is None:
+            out = t.decl()(*kids) if kids else t
+        self.memo[key] = out
+        return out
+
+    def c(self, z):
+        return C(self.term(z.r), self.term(z.i))
+
+    def memo_used(self, fname):
+        return any(fname in self.rules and True for _ in [0]) and getattr(self, '_hits', {}).get(fname, 0) > 0
+
+
+def _log_rules(cn, y1, y2, tag=''):
+    """identities of the principal branch near the positive real axis for the Bicomplex y1 + j y2, whose library logarithm is
+    log(sqrt(y1^2 + y2^2)) + j arctan(y2 / y1):
+        log(sqrt(u v)) = (log u + log v)/2,     arctan(y2/y1) = (log v - log u)/(2i),    u = y1 - i y2, v = y1 + i y2
+    -> (log u, log v, L1, L2) with log u, log v atoms"""
+    u, v = U(y1, y2), V(y1, y2)
+    lu, lv = cuf('log', u), cuf('log', v)
+    half = z3.RealVal('1/2')
+    L1 = (lu + lv) * half
+    dif = lv - lu
+    L2 = C(dif.i * half, -dif.r * half)
+    P = y1 * y1 + y2 * y2
+    root = cuf('sqrt', P)
+    cn.rule('sqrt', P, root)
+    cn.rule('log', root, L1)
+    cn.rule('arctan', _cdiv(y2, y1), L2)
+    return lu, lv, L1, L2
+
+
+def _pow_rules(cn, L1, L2, pr):
+    """exp(A -+ iB) = exp(A)(cos B -+ i sin B) at A = p L1, B = p L2 (A - iB = p log u, A + iB = p log v):
+    -> (exp(p log u), exp(p log v)) expressed through the atoms exp(A), cos(B), sin(B)"""
+    A, B = L1 * pr, L2 * pr
+    EA, CB, SB = cuf('exp', A), cuf('cos', B), cuf('sin', B)
+    cn.rule('exp', A, EA)
+    cn.rule('cos', B, CB)
+    cn.rule('sin', B, SB)
+    return EA * (CB - SB.times_i()), EA * (CB + SB.times_i())
+
+
+def principal(job, mc, name, k):
+    """real Bicomplex code on four symbolic components per operand, every feasible path explored; per path the claim
+    result.z1 -+ i result.z2 == f(u), f(v) is decided by z3 from the listed identities (complex functions uninterpreted)"""
+    one = C(z3.RealVal(1), z3.RealVal(0))
+    info = dict(key='C12:principal:%s' % name, kind='bicomplex', op='principal-' + name, k=k)
+
+    def harness():
+        with tr.traced(extra=[(mc, '_TINY', 0.0)]):
+            x, z1, z2 = bic(mc, 'x')
+            y = bic(mc, 'y') if name in ('division', 'division-negative') else None
+            if name in ('log', 'log2', 'log10', 'exp2', 'sqrt') + PRINCIPAL_TRIG:
+                res = getattr(x, name)()
+            elif name == 'reciprocal':
+                res = x ** -1
+            elif name in ('division', 'division-negative'):
+                res = y[0] / x
+            elif name == 'rdivision':
+                res = 0.75 / x
+            else:
+                res = x ** RPOWS[k]
+            return res, (y[1], y[2]) if y else None
+    a, b, c, d = (z3.Real('x' + ch) for ch in 'abcd')
+    z1, z2 = C(a, b), C(c, d)
+    u, v = U(z1, z2), V(z1, z2)
+    if name in PRINCIPAL_TRIG:
+        return trig_quotient(job, mc, name)
+    negd = name == 'division-negative'
+    if negd:
+        name = 'division'
+    region = _region(z1, z2) if not negd else _region(z1.neg(), z2.neg())
+    ex = sn.Explorer(harness, assumptions=region, max_paths=32, timeout_ms=20000)
+    npaths = 0
+    for path in ex.paths():
+        if path.exc is not None:
+            if isinstance(path.exc, sn.Unsupported):
+                raise path.exc
+            job.violation('raises', dict(info, key='C12:principal:%s:raises' % name, exc=repr(path.exc)[:200]))
+            continue
+        npaths += 1
+        res, yy = path.result
+        r1, r2 = of_symc(res.z1), of_symc(res.z2)
+        pre = region + path.conds()
+        cn = Canon(job, pre, info)
+        claims = []
+        if name in ('log', 'log2', 'log10'):
+            lu, lv, _L1, _L2 = _log_rules(cn, z1, z2)
+            kf = {'log': 1.0, 'log2': float(np.log(2.0)) ** -1, 'log10': float(np.log(10.0)) ** -1}[name]
+            kr = sn.ratval(Fraction(kf))
+            # log2 / log10 are DEFINED as log / ln 2, log / ln 10 (the same double the library divides by)
+            targets = (lu * kr, lv * kr)
+        elif name == 'exp2':
+            ln2 = sn.ratval(Fraction(float(np.log(2.0))))
+            s1, s2 = z1 * ln2, z2 * ln2
+            E1, S2, C2 = cuf('exp', s1), cuf('sin', s2), cuf('cos', s2)
+            cn.rule('exp', s1, E1)
+            cn.rule('sin', s2, S2)
+            cn.rule('cos', s2, C2)
+            # exp2(w) is DEFINED as exp(w ln 2);  exp(s1 -+ i s2) = exp(s1)(cos s2 -+ i sin s2)
+            targets = (E1 * (C2 - S2.times_i()), E1 * (C2 + S2.times_i()))
+        elif name in ('sqrt', 'rpow', 'reciprocal', 'division', 'rdivision'):
+            pw = {'sqrt': 0.5, 'reciprocal': -1.0, 'division': -1.0, 'rdivision': -1.0}.get(name, RPOWS[k] if name == 'rpow' else None)
+            pr = sn.ratval(Fraction(pw))
+            sg = z3.RealVal(-1 if negd else 1)
+            # a divisor with negative real part is negated before the logarithm is taken and the sign restored afterwards:
+            # 1/w = -exp(-log(-w))
+            lu, lv, L1, L2 = _log_rules(cn, z1 * sg, z2 * sg)
+            eu, ev = _pow_rules(cn, L1, L2, pr)
+            if negd:
+                eu, ev = eu.neg(), ev.neg()
+            # w^p is DEFINED as exp(p log w) (principal power); the library's branch for non-invertible numbers uses numpy's
+            # w**p directly: same definition
+            cn.rule(sn.pow_uf_name(pw), u, eu)
+            cn.rule(sn.pow_uf_name(pw), v, ev)
+            if name in ('sqrt', 'rpow'):
+                targets = (eu, ev)
+            else:
+                nu, nv = (one, one) if name == 'reciprocal' else ((C(z3.RealVal('3/4'), z3.RealVal(0)),) * 2 if name == 'rdivision'
+                                                                  else (U(*yy), V(*yy)))
+                targets = (nu * eu, nv * ev)    # 1/w is DEFINED as exp(-log w)
+        c1, c2 = cn.c(r1), cn.c(r2)
+        ru, rv = U(c1, c2), V(c1, c2)
+        def _main_holds():
+            lhs, rhs = ru, targets[0]
+            r, _s, _dt = job._solve(pre + [z3.Not(z3.And(z3.simplify(lhs.r - rhs.r, som=True) == 0, z3.simplify(lhs.i - rhs.i, som=True) == 0))], 20000)
+            return r == 'unsat'
+        if name in ('reciprocal', 'division', 'rdivision') and not _main_holds():
+            # branch for non-invertible numbers: (z1 -+ i z2)**-1 was formed exactly; claim result * w == numerator
+            nu, nv = (one, one) if name == 'reciprocal' else ((C(z3.RealVal('3/4'), z3.RealVal(0)),) * 2 if name == 'rdivision' else (U(*yy), V(*yy)))
+            claims = [('(z1 - i z2) u == numerator', ru * u, nu), ('(z1 + i z2) v == numerator', rv * v, nv)]
+        else:
+            claims = [('z1 - i z2 == f(u)', ru, targets[0]), ('z1 + i z2 == f(v)', rv, targets[1])]
+        for label, lhs, rhs in claims:
+            dr = z3.simplify(lhs.r - rhs.r, som=True)
+            di = z3.simplify(lhs.i - rhs.i, som=True)
+            if _identically_zero(dr) and _identically_zero(di):
+                # rational-function identity in the atoms (denominators are |u|^2, |v|^2 > 0 in the region)
+                job.n_obl += 1
+                job.n_discharged += 1
+                job.n_nontrivial += 1
+                continue
+            job.prove('%s [%s]' % (label, name), z3.And(dr == 0, di == 0), pre, info)
+        job.twin('region and path satisfiable', pre)
+    job.absorb_explorer(ex)
+    job.confirm('at least one path', npaths > 0)
+
+
+TRIG_DEF = {'tan': ('sin', 'cos'), 'cot': ('cos', 'sin'), 'sec': (None, 'cos'), 'csc': (None, 'sin'),
+            'tanh': ('sinh', 'cosh'), 'coth': ('cosh', 'sinh'), 'sech': (None, 'cosh'), 'csch': (None, 'sinh')}
+
+
+def trig_quotient(job, mc, name):
+    """tan, cot, sec, csc, tanh, coth, sech, csch: on every path the result is, term for term, the library's own quotient
+    N / D of the functions proven by the func-* jobs (N = 1 for the reciprocals); N / D itself is proven by the
+    principal-division jobs for denominators in the principal region or its negative."""
+    num_name, den_name = TRIG_DEF[name]
+    info = dict(key='C12:principal:%s' % name, kind='bicomplex', op='principal-' + name, k=0)
+
+    def harness():
+        with tr.traced(extra=[(mc, '_TINY', 0.0)]):
+            x, z1, z2 = bic(mc, 'x')
+            got = getattr(x, name)()
+            den = getattr(x, den_name)()
+            want = (getattr(x, num_name)() / den) if num_name else (1.0 / den)
+            return got, want
+    a, b, c, d = (z3.Real('x' + ch) for ch in 'abcd')
+    region = [z3.And(w <= 2, w >= -2) for w in (a, b, c, d)]
+    # the comparison is term by term, so branch feasibility is irrelevant: undecided branches are simply explored
+    ex = sn.Explorer(harness, assumptions=region, max_paths=64, timeout_ms=500)
+    npaths = 0
+    for path in ex.paths():
+        if path.exc is not None:
+            if isinstance(path.exc, sn.Unsupported):
+                raise path.exc
+            job.violation('raises', dict(info, key='C12:principal:%s:raises' % name, exc=repr(path.exc)[:200]))
+            continue
+        npaths += 1
+        got, want = path.result
+        for comp in ('z1', 'z2'):
+            g, w = of_symc(getattr(got, comp)), of_symc(getattr(want, comp))
+            same = z3.eq(z3.simplify(g.r), z3.simplify(w.r)) and z3.eq(z3.simplify(g.i), z3.simplify(w.i))
+            if same:
+                job.confirm('%s().%s is the quotient term' % (name, comp), True)
+            else:
+                job.prove('%s().%s == (%s / %s).%s' % (name, comp, num_name or '1', den_name, comp), z3.And(g.r == w.r, g.i == w.i),
+                          region + path.conds(), info)
+    job.absorb_explorer(ex)
+    job.confirm('at least one path', npaths > 0)
+
+
 # ---- numeric validation / replay -------------------------------------------
 NPF = {'exp': np.exp, 'sin': np.sin, 'cos': np.cos, 'sinh': np.sinh, 'cosh': np.cosh, 'expm1': np.expm1, 'log1p': np.log1p}
 
@@ -429,7 +765,32 @@ def numeric_deviation(mc, op, k=0, trials=40, seed=0):
         x, y = mc.Bicomplex(z1, z2), mc.Bicomplex(y1, y2)
         u, v, yu, yv = z1 - 1j * z2, z1 + 1j * z2, y1 - 1j * y2, y1 + 1j * y2
         s = 0.7
-        if op == 'logslice':
+        if op.startswith('principal-'):
+            nm = op[len('principal-'):]
+            a0 = rng.uniform(0.2, 1.5)
+            if nm in PRINCIPAL_TRIG:
+                a0 = rng.uniform(-1.4, 1.4)
+            q = 0.25 * abs(a0) if nm not in PRINCIPAL_TRIG else 0.2
+            z1 = complex(a0, rng.uniform(-q, q))
+            z2 = complex(rng.uniform(-q, q), rng.uniform(-q, q))
+            if nm == 'division-negative':
+                z1, z2 = -z1, -z2
+            x = mc.Bicomplex(z1, z2)
+            u, v = z1 - 1j * z2, z1 + 1j * z2
+            npf = {'log': np.log, 'log2': np.log2, 'log10': np.log10, 'exp2': np.exp2, 'sqrt': np.sqrt, 'tan': np.tan,
+                   'cot': lambda w: 1 / np.tan(w), 'sec': lambda w: 1 / np.cos(w), 'csc': lambda w: 1 / np.sin(w), 'tanh': np.tanh,
+                   'coth': lambda w: 1 / np.tanh(w), 'sech': lambda w: 1 / np.cosh(w), 'csch': lambda w: 1 / np.sinh(w)}
+            if nm in npf:
+                res, fu, fv = getattr(x, nm)(), npf[nm](u), npf[nm](v)
+            elif nm == 'rpow':
+                res, fu, fv = x ** RPOWS[k], u ** RPOWS[k], v ** RPOWS[k]
+            elif nm == 'reciprocal':
+                res, fu, fv = x ** -1, 1 / u, 1 / v
+            elif nm == 'rdivision':
+                res, fu, fv = 0.75 / x, 0.75 / u, 0.75 / v
+            else:
+                res, fu, fv = y / x, yu / u, yv / v
+        elif op == 'logslice':
             x = mc.Bicomplex(complex(rng.choice([-1, 1]) * rng.uniform(0.2, 2), rng.normal() * 0.3), 0.0)
             z1, z2 = complex(np.ravel(x.z1)[0]), 0j
             res = x.log().exp()
